@@ -64,7 +64,7 @@ AllKeys == {K(f) : f \in Flows}
 FlowOf(k) == CHOOSE f \in Flows : K(f) = k     \* flows are distinct (source, destination) pairs
 ASSUME \A f, g \in Flows : K(f) = K(g) => f = g
 
-Nil == [f |-> 0, id |-> 0]
+Nil == [f |-> 0, id |-> 0, len |-> 0]
 NoKey == Key("-", "-")
 
 VARIABLES
@@ -90,13 +90,19 @@ VARIABLES
     done,       \* history of processed client datagrams: [f, id, out]
     ops, nextId, nextGen,
     lastAct,    \* ghost: [AllKeys -> time of the last registered activity of the flow while it holds a socket]
+    met,        \* [{"out","in"} -> Nat] sum of the update_metrics(direction, n) callbacks (C16 byte counters)
+    stalled,    \* the client does not take datagrams: the downstream sink answers Dropped
     everDown,   \* ghost: addresses that have been down at some time
     expiredOnce \* ghost: keys that have been expired by a tick
 
 vars == << pipeTab, fwdTab, gauge, alive, began, closing, inq, lpc, lcur, rxq, sockErr, icmpFly,
            rpc, rcur, tpc, texp, tcur, now, tickAt, down, seen, toPeer, toClient, got, done,
-           ops, nextId, nextGen, lastAct, everDown, expiredOnce >>
+           ops, nextId, nextGen, lastAct, everDown, expiredOnce, met, stalled >>
 
+Dirs == {"out", "in"}
+\* with Hist = FALSE a history keeps its last element only; the counter of that direction
+\* restarts with it, so that MetricsEqualDelivered means the same in both modes
+Recount(d) == IF Hist THEN met ELSE [met EXCEPT ![d] = 0]
 Record(h, e) == IF Hist THEN Append(h, e) ELSE << e >>
 Without(fn, k) == [x \in (DOMAIN fn) \ {k} |-> fn[x]]
 With(fn, k, v) == [x \in (DOMAIN fn) \cup {k} |-> IF x = k THEN v ELSE fn[x]]
@@ -111,13 +117,14 @@ Init ==
     /\ alive = TRUE /\ began = FALSE /\ closing = FALSE
     /\ inq = << >> /\ lpc = "idle" /\ lcur = Nil
     /\ rxq = [k \in AllKeys |-> << >>] /\ sockErr = {} /\ icmpFly = {}
-    /\ rpc = "idle" /\ rcur = [lab |-> NoKey, k |-> NoKey]
+    /\ rpc = "idle" /\ rcur = [lab |-> NoKey, k |-> NoKey, len |-> 0]
     /\ tpc = "idle" /\ texp = {} /\ tcur = NoKey
     /\ now = 0 /\ tickAt = 0
     /\ down = {} /\ seen = {}
     /\ toPeer = << >> /\ toClient = << >> /\ got = {} /\ done = << >>
     /\ ops = 0 /\ nextId = 1 /\ nextGen = 1
     /\ lastAct = [k \in AllKeys |-> 0] /\ everDown = {} /\ expiredOnce = {}
+    /\ met = [d \in Dirs |-> 0] /\ stalled = FALSE
 
 \* a new multiplexer (recorded executions are concatenated)
 Reset ==
@@ -125,13 +132,14 @@ Reset ==
     /\ alive' = TRUE /\ began' = FALSE /\ closing' = FALSE
     /\ inq' = << >> /\ lpc' = "idle" /\ lcur' = Nil
     /\ rxq' = [k \in AllKeys |-> << >>] /\ sockErr' = {} /\ icmpFly' = {}
-    /\ rpc' = "idle" /\ rcur' = [lab |-> NoKey, k |-> NoKey]
+    /\ rpc' = "idle" /\ rcur' = [lab |-> NoKey, k |-> NoKey, len |-> 0]
     /\ tpc' = "idle" /\ texp' = {} /\ tcur' = NoKey
     /\ now' = 0 /\ tickAt' = 0
     /\ down' = {} /\ seen' = {}
     /\ toPeer' = << >> /\ toClient' = << >> /\ got' = {} /\ done' = << >>
     /\ ops' = 0 /\ nextId' = 1 /\ nextGen' = 1
     /\ lastAct' = [k \in AllKeys |-> 0] /\ everDown' = {} /\ expiredOnce' = {}
+    /\ met' = [d \in Dirs |-> 0] /\ stalled' = FALSE
 
 --------------------------------------------------------------------------
 (* the caller polls DuplexPipe::exchange for the first time: the T/4 timer is armed *)
@@ -139,7 +147,7 @@ Reset ==
 Begin ==
     /\ ~began /\ began' = TRUE /\ tickAt' = now + P
     /\ UNCHANGED << pipeTab, fwdTab, gauge, alive, closing, inq, lpc, lcur, rxq, sockErr, icmpFly, rpc, rcur,
-                    tpc, texp, tcur, now, down, seen, toPeer, toClient, got, done, ops, nextId, nextGen, lastAct, everDown, expiredOnce >>
+                    tpc, texp, tcur, now, down, seen, toPeer, toClient, got, done, ops, nextId, nextGen, lastAct, everDown, expiredOnce, met, stalled >>
 
 --------------------------------------------------------------------------
 (* forwarder::UdpDatagramPipeShared::on_connection_closed(arg): the argument is in the      *)
@@ -152,7 +160,7 @@ ConnClosedEffect(arg) ==
          /\ rxq' = [rxq EXCEPT ![k] = << >>]
          /\ sockErr' = sockErr \ {k} /\ icmpFly' = icmpFly \ {k} /\ seen' = seen \ {k}
          /\ lastAct' = [lastAct EXCEPT ![k] = 0]
-    ELSE UNCHANGED << fwdTab, gauge, rxq, sockErr, icmpFly, seen, lastAct >>
+    ELSE UNCHANGED << fwdTab, gauge, rxq, sockErr, icmpFly, seen, lastAct, met, stalled >>
 
 --------------------------------------------------------------------------
 (* LeftPipe::exchange / on_udp_packet *)
@@ -163,7 +171,7 @@ Lookup ==
     /\ lcur' = Head(inq) /\ inq' = Tail(inq)
     /\ lpc' = IF K(Head(inq).f) \in DOMAIN pipeTab THEN "reg" ELSE "ins"
     /\ UNCHANGED << pipeTab, fwdTab, gauge, alive, began, closing, rxq, sockErr, icmpFly, rpc, rcur, tpc, texp, tcur,
-                    now, tickAt, down, seen, toPeer, toClient, got, done, ops, nextId, nextGen, lastAct, everDown, expiredOnce >>
+                    now, tickAt, down, seen, toPeer, toClient, got, done, ops, nextId, nextGen, lastAct, everDown, expiredOnce, met, stalled >>
 
 InsertPipeEntry ==
     /\ lpc = "ins"
@@ -171,7 +179,7 @@ InsertPipeEntry ==
     /\ lastAct' = [lastAct EXCEPT ![K(lcur.f)] = now]
     /\ lpc' = "open"
     /\ UNCHANGED << fwdTab, gauge, alive, began, closing, inq, lcur, rxq, sockErr, icmpFly, rpc, rcur, tpc, texp, tcur,
-                    now, tickAt, down, seen, toPeer, toClient, got, done, ops, nextId, nextGen, everDown, expiredOnce >>
+                    now, tickAt, down, seen, toPeer, toClient, got, done, ops, nextId, nextGen, everDown, expiredOnce, met, stalled >>
 
 \* MultiplexerShared::on_new_udp_connection: a socket connected to the datagram's destination
 SockOpenOk ==
@@ -182,19 +190,19 @@ SockOpenOk ==
     /\ gauge' = gauge + 1
     /\ lpc' = "conn"
     /\ UNCHANGED << pipeTab, alive, began, closing, inq, lcur, rxq, sockErr, icmpFly, rpc, rcur, tpc, texp, tcur,
-                    now, tickAt, down, seen, toPeer, toClient, got, done, ops, nextId, lastAct, everDown, expiredOnce >>
+                    now, tickAt, down, seen, toPeer, toClient, got, done, ops, nextId, lastAct, everDown, expiredOnce, met, stalled >>
 
 \* connect() failed locally: no socket, no gauge
 SockOpenErr ==
     /\ lpc = "open" /\ lcur.f \in Unconn
     /\ lpc' = "connerr"
     /\ UNCHANGED << pipeTab, fwdTab, gauge, alive, began, closing, inq, lcur, rxq, sockErr, icmpFly, rpc, rcur, tpc, texp, tcur,
-                    now, tickAt, down, seen, toPeer, toClient, got, done, ops, nextId, nextGen, lastAct, everDown, expiredOnce >>
+                    now, tickAt, down, seen, toPeer, toClient, got, done, ops, nextId, nextGen, lastAct, everDown, expiredOnce, met, stalled >>
 
 NewConnOk ==
     /\ lpc = "conn" /\ lpc' = "reg"
     /\ UNCHANGED << pipeTab, fwdTab, gauge, alive, began, closing, inq, lcur, rxq, sockErr, icmpFly, rpc, rcur, tpc, texp, tcur,
-                    now, tickAt, down, seen, toPeer, toClient, got, done, ops, nextId, nextGen, lastAct, everDown, expiredOnce >>
+                    now, tickAt, down, seen, toPeer, toClient, got, done, ops, nextId, nextGen, lastAct, everDown, expiredOnce, met, stalled >>
 
 \* on_new_udp_connection failed: the datagram is dropped and the flow does not exist
 \* (the pipe-table entry made just before is withdrawn); the multiplexer goes on
@@ -204,7 +212,7 @@ NewConnErr ==
     /\ done' = Record(done, [f |-> lcur.f, id |-> lcur.id, out |-> "connerr"])
     /\ lpc' = "idle" /\ lcur' = Nil
     /\ UNCHANGED << fwdTab, gauge, alive, began, closing, inq, rxq, sockErr, icmpFly, rpc, rcur, tpc, texp, tcur,
-                    now, tickAt, down, seen, toPeer, toClient, got, ops, nextId, nextGen, lastAct, everDown, expiredOnce >>
+                    now, tickAt, down, seen, toPeer, toClient, got, ops, nextId, nextGen, lastAct, everDown, expiredOnce, met, stalled >>
 
 RegisterOutgoing ==
     /\ lpc = "reg" /\ K(lcur.f) \in DOMAIN pipeTab
@@ -213,7 +221,7 @@ RegisterOutgoing ==
     /\ lastAct' = [lastAct EXCEPT ![K(lcur.f)] = now]
     /\ lpc' = "write"
     /\ UNCHANGED << fwdTab, gauge, alive, began, closing, inq, lcur, rxq, sockErr, icmpFly, rpc, rcur, tpc, texp, tcur,
-                    now, tickAt, down, seen, toPeer, toClient, got, done, ops, nextId, nextGen, everDown, expiredOnce >>
+                    now, tickAt, down, seen, toPeer, toClient, got, done, ops, nextId, nextGen, everDown, expiredOnce, met, stalled >>
 
 \* MultiplexerSink::write: the datagram leaves through the flow's own socket, to the socket's peer.
 \* If that peer's port is closed an ICMP error will come back to this socket.
@@ -222,17 +230,26 @@ SinkWriteOk ==
     /\ LET k == K(lcur.f) IN
        /\ k \in DOMAIN fwdTab /\ k \notin sockErr
        /\ toPeer' = Record(toPeer, [f |-> lcur.f, id |-> lcur.id, to |-> fwdTab[k].peer,
-                                    owner |-> fwdTab[k].owner, lost |-> fwdTab[k].peer \in down])
+                                    owner |-> fwdTab[k].owner, lost |-> fwdTab[k].peer \in down, len |-> lcur.len])
        /\ icmpFly' = IF fwdTab[k].peer \in down THEN icmpFly \cup {k} ELSE icmpFly
        \* a peer that is up learns the port of the socket from the datagram
        /\ seen' = IF fwdTab[k].peer \in down THEN seen ELSE seen \cup {k}
     /\ done' = Record(done, [f |-> lcur.f, id |-> lcur.id, out |-> "sent"])
-    /\ lpc' = "idle" /\ lcur' = Nil
-    /\ UNCHANGED << pipeTab, fwdTab, gauge, alive, began, closing, inq, rxq, sockErr, rpc, rcur, tpc, texp, tcur,
-                    now, tickAt, down, toClient, got, ops, nextId, nextGen, lastAct, everDown, expiredOnce >>
+    /\ met' = Recount("out")
+    /\ lpc' = "metric"          \* SendStatus::Sent: the byte counter follows
+    /\ UNCHANGED << pipeTab, fwdTab, gauge, alive, began, closing, inq, lcur, rxq, sockErr, rpc, rcur, tpc, texp, tcur,
+                    now, tickAt, down, toClient, got, ops, nextId, nextGen, lastAct, everDown, expiredOnce, stalled >>
 
-\* send() returned the socket's pending error (ECONNREFUSED): this datagram is dropped, the
-\* error is consumed, the flow and the multiplexer go on
+\* update_metrics(Outgoing, payload length) - only for a datagram the sink answered Sent
+MetricOut ==
+    /\ lpc = "metric"
+    /\ met' = [met EXCEPT !["out"] = @ + lcur.len]
+    /\ lpc' = "idle" /\ lcur' = Nil
+    /\ UNCHANGED << pipeTab, fwdTab, gauge, alive, began, closing, inq, rxq, sockErr, icmpFly, rpc, rcur, tpc, texp, tcur,
+                    now, tickAt, down, seen, toPeer, toClient, got, done, ops, nextId, nextGen, lastAct, everDown, expiredOnce, stalled >>
+
+\* send() returned the socket's pending error (ECONNREFUSED): this datagram is dropped
+\* (SendStatus::Dropped: no byte is counted), the error is consumed, the flow and the multiplexer go on
 SinkWriteErr ==
     /\ lpc = "write" /\ rpc = "idle"
     /\ K(lcur.f) \in DOMAIN fwdTab /\ K(lcur.f) \in sockErr
@@ -240,7 +257,7 @@ SinkWriteErr ==
     /\ done' = Record(done, [f |-> lcur.f, id |-> lcur.id, out |-> "senderr"])
     /\ lpc' = "idle" /\ lcur' = Nil
     /\ UNCHANGED << pipeTab, fwdTab, gauge, alive, began, closing, inq, rxq, icmpFly, rpc, rcur, tpc, texp, tcur,
-                    now, tickAt, down, seen, toPeer, toClient, got, ops, nextId, nextGen, lastAct, everDown, expiredOnce >>
+                    now, tickAt, down, seen, toPeer, toClient, got, ops, nextId, nextGen, lastAct, everDown, expiredOnce, met, stalled >>
 
 \* the downstream source fails (the client closed the stream): exchange() returns, the pipe
 \* and the multiplexer are dropped with every socket they hold
@@ -251,22 +268,32 @@ Return ==
     /\ rxq' = [k \in AllKeys |-> << >>] /\ sockErr' = {} /\ icmpFly' = {} /\ seen' = {}
     /\ lastAct' = [k \in AllKeys |-> 0]
     /\ UNCHANGED << began, closing, inq, lpc, lcur, rpc, rcur, tpc, texp, tcur, now, tickAt, down,
-                    toPeer, toClient, got, done, ops, nextId, nextGen, everDown, expiredOnce >>
+                    toPeer, toClient, got, done, ops, nextId, nextGen, everDown, expiredOnce, met, stalled >>
 
 --------------------------------------------------------------------------
 (* RightPipe::exchange *)
 
 \* MultiplexerSource::read: a datagram read from the socket of key k is labelled Rev(k) and
-\* written to the downstream sink
+\* written to the downstream sink, which answers Sent, or Dropped when the client is stalled
 ReadReply(k) ==
     /\ RightMay /\ rpc = "idle"
     /\ k \in DOMAIN fwdTab /\ k \notin sockErr /\ rxq[k] # << >>
     /\ rxq' = [rxq EXCEPT ![k] = Tail(@)]
-    /\ rcur' = [lab |-> Rev(k), k |-> k]
-    /\ toClient' = Record(toClient, [s |-> Rev(k).s, d |-> Rev(k).d, id |-> Head(rxq[k]), g |-> fwdTab[k].owner])
-    /\ rpc' = "regin"
+    /\ rcur' = [lab |-> Rev(k), k |-> k, len |-> Head(rxq[k]).len]
+    /\ toClient' = Record(toClient, [s |-> Rev(k).s, d |-> Rev(k).d, id |-> Head(rxq[k]).id, g |-> fwdTab[k].owner,
+                                      len |-> Head(rxq[k]).len, sent |-> ~stalled])
+    /\ met' = Recount("in")
+    /\ rpc' = IF stalled THEN "regin" ELSE "metricin"
     /\ UNCHANGED << pipeTab, fwdTab, gauge, alive, began, closing, inq, lpc, lcur, sockErr, icmpFly, tpc, texp, tcur,
-                    now, tickAt, down, seen, toPeer, got, done, ops, nextId, nextGen, lastAct, everDown, expiredOnce >>
+                    now, tickAt, down, seen, toPeer, got, done, ops, nextId, nextGen, lastAct, everDown, expiredOnce, stalled >>
+
+\* update_metrics(Incoming, payload length) - only for a datagram the downstream sink answered Sent
+MetricIn ==
+    /\ rpc = "metricin"
+    /\ met' = [met EXCEPT !["in"] = @ + rcur.len]
+    /\ rpc' = "regin"
+    /\ UNCHANGED << pipeTab, fwdTab, gauge, alive, began, closing, inq, lpc, lcur, rxq, sockErr, icmpFly, rcur, tpc, texp, tcur,
+                    now, tickAt, down, seen, toPeer, toClient, got, done, ops, nextId, nextGen, lastAct, everDown, expiredOnce, stalled >>
 
 \* RightPipe::on_udp_packet(label.reversed()): the flow's entry is refreshed; a plain-DNS flow
 \* whose last pending query is answered is done
@@ -279,9 +306,9 @@ RegisterIncoming ==
             /\ pipeTab' = [pipeTab EXCEPT ![k] = [la |-> now, pend |-> q]]
             /\ lastAct' = [lastAct EXCEPT ![k] = now]
             /\ rpc' = IF q = 0 THEN "dns1" ELSE "idle"
-       ELSE /\ rpc' = "idle" /\ UNCHANGED << pipeTab, lastAct >>
+       ELSE /\ rpc' = "idle" /\ UNCHANGED << pipeTab, lastAct, met, stalled >>
     /\ UNCHANGED << fwdTab, gauge, alive, began, closing, inq, lpc, lcur, rxq, sockErr, icmpFly, rcur, tpc, texp, tcur,
-                    now, tickAt, down, seen, toPeer, toClient, got, done, ops, nextId, nextGen, everDown, expiredOnce >>
+                    now, tickAt, down, seen, toPeer, toClient, got, done, ops, nextId, nextGen, everDown, expiredOnce, met, stalled >>
 
 \* "All UDP queries are completed": the pipe forgets the flow ...
 DnsDone ==
@@ -289,7 +316,7 @@ DnsDone ==
     /\ pipeTab' = Without(pipeTab, Rev(rcur.lab))
     /\ rpc' = "dns2"
     /\ UNCHANGED << fwdTab, gauge, alive, began, closing, inq, lpc, lcur, rxq, sockErr, icmpFly, rcur, tpc, texp, tcur,
-                    now, tickAt, down, seen, toPeer, toClient, got, done, ops, nextId, nextGen, lastAct, everDown, expiredOnce >>
+                    now, tickAt, down, seen, toPeer, toClient, got, done, ops, nextId, nextGen, lastAct, everDown, expiredOnce, met, stalled >>
 
 \* ... and tells the forwarder, with the peer->client label
 DnsConnClosed(arg) ==
@@ -297,7 +324,7 @@ DnsConnClosed(arg) ==
     /\ ConnClosedEffect(arg)
     /\ rpc' = "idle"
     /\ UNCHANGED << pipeTab, alive, began, closing, inq, lpc, lcur, rcur, tpc, texp, tcur,
-                    now, tickAt, down, toPeer, toClient, got, done, ops, nextId, nextGen, everDown, expiredOnce >>
+                    now, tickAt, down, toPeer, toClient, got, done, ops, nextId, nextGen, everDown, expiredOnce, met, stalled >>
 
 \* the socket reports its pending error to the reader: the forwarder drops the socket ...
 SockErrRead(k) ==
@@ -306,11 +333,11 @@ SockErrRead(k) ==
     /\ fwdTab' = Without(fwdTab, k) /\ gauge' = gauge - 1
     /\ rxq' = [rxq EXCEPT ![k] = << >>]
     /\ sockErr' = sockErr \ {k} /\ icmpFly' = icmpFly \ {k} /\ seen' = seen \ {k}
-    /\ rcur' = [lab |-> NoKey, k |-> k]
+    /\ rcur' = [lab |-> NoKey, k |-> k, len |-> 0]
     /\ lastAct' = [lastAct EXCEPT ![k] = 0]
     /\ rpc' = "close"
     /\ UNCHANGED << pipeTab, alive, began, closing, inq, lpc, lcur, tpc, texp, tcur,
-                    now, tickAt, down, toPeer, toClient, got, done, ops, nextId, nextGen, everDown, expiredOnce >>
+                    now, tickAt, down, toPeer, toClient, got, done, ops, nextId, nextGen, everDown, expiredOnce, met, stalled >>
 
 \* ... and UdpClose(client->peer key) makes the pipe forget the flow
 ReadClose ==
@@ -318,7 +345,7 @@ ReadClose ==
     /\ pipeTab' = IF rcur.k \in DOMAIN pipeTab THEN Without(pipeTab, rcur.k) ELSE pipeTab
     /\ rpc' = "idle"
     /\ UNCHANGED << fwdTab, gauge, alive, began, closing, inq, lpc, lcur, rxq, sockErr, icmpFly, rcur, tpc, texp, tcur,
-                    now, tickAt, down, seen, toPeer, toClient, got, done, ops, nextId, nextGen, lastAct, everDown, expiredOnce >>
+                    now, tickAt, down, seen, toPeer, toClient, got, done, ops, nextId, nextGen, lastAct, everDown, expiredOnce, met, stalled >>
 
 --------------------------------------------------------------------------
 (* DuplexPipe::on_timer_tick *)
@@ -330,7 +357,7 @@ Tick ==
     /\ texp' = ExpiredSet
     /\ tpc' = "tick"
     /\ UNCHANGED << pipeTab, fwdTab, gauge, alive, began, closing, inq, lpc, lcur, rxq, sockErr, icmpFly, rpc, rcur, tcur,
-                    now, tickAt, down, seen, toPeer, toClient, got, done, ops, nextId, nextGen, lastAct, everDown, expiredOnce >>
+                    now, tickAt, down, seen, toPeer, toClient, got, done, ops, nextId, nextGen, lastAct, everDown, expiredOnce, met, stalled >>
 
 Expire(k) ==
     /\ tpc = "tick" /\ k \in texp
@@ -339,7 +366,7 @@ Expire(k) ==
     /\ expiredOnce' = expiredOnce \cup {k}
     /\ tpc' = "closed"
     /\ UNCHANGED << fwdTab, gauge, alive, began, closing, inq, lpc, lcur, rxq, sockErr, icmpFly, rpc, rcur,
-                    now, tickAt, down, seen, toPeer, toClient, got, done, ops, nextId, nextGen, lastAct, everDown >>
+                    now, tickAt, down, seen, toPeer, toClient, got, done, ops, nextId, nextGen, lastAct, everDown, met, stalled >>
 
 \* the forwarder is told with the peer->client orientation of the expired key
 ExpireConnClosed(arg) ==
@@ -347,14 +374,14 @@ ExpireConnClosed(arg) ==
     /\ ConnClosedEffect(arg)
     /\ tpc' = "tick" /\ tcur' = NoKey
     /\ UNCHANGED << pipeTab, alive, began, closing, inq, lpc, lcur, rpc, rcur, texp,
-                    now, tickAt, down, toPeer, toClient, got, done, ops, nextId, nextGen, everDown, expiredOnce >>
+                    now, tickAt, down, toPeer, toClient, got, done, ops, nextId, nextGen, everDown, expiredOnce, met, stalled >>
 
 \* the loop of exchange() re-arms the timer
 TickEnd ==
     /\ tpc = "tick" /\ texp = {}
     /\ tpc' = "idle" /\ tickAt' = now + P
     /\ UNCHANGED << pipeTab, fwdTab, gauge, alive, began, closing, inq, lpc, lcur, rxq, sockErr, icmpFly, rpc, rcur, texp, tcur,
-                    now, down, seen, toPeer, toClient, got, done, ops, nextId, nextGen, lastAct, everDown, expiredOnce >>
+                    now, down, seen, toPeer, toClient, got, done, ops, nextId, nextGen, lastAct, everDown, expiredOnce, met, stalled >>
 
 --------------------------------------------------------------------------
 (* environment *)
@@ -366,46 +393,46 @@ Adv(d) ==
     /\ (alive /\ began) => now + d <= tickAt + J
     /\ now' = now + d
     /\ UNCHANGED << pipeTab, fwdTab, gauge, alive, began, closing, inq, lpc, lcur, rxq, sockErr, icmpFly, rpc, rcur,
-                    tpc, texp, tcur, tickAt, down, seen, toPeer, toClient, got, done, ops, nextId, nextGen, lastAct, everDown, expiredOnce >>
+                    tpc, texp, tcur, tickAt, down, seen, toPeer, toClient, got, done, ops, nextId, nextGen, lastAct, everDown, expiredOnce, met, stalled >>
 
-ClientDgram(f, id) ==
+ClientDgram(f, id, n) ==
     /\ alive /\ ~closing /\ ops < MaxOps /\ Len(inq) < MaxQ
-    /\ inq' = Append(inq, [f |-> f, id |-> id])
+    /\ inq' = Append(inq, [f |-> f, id |-> id, len |-> n])
     /\ ops' = ops + 1 /\ nextId' = IF Hist THEN nextId + 1 ELSE nextId
     /\ UNCHANGED << pipeTab, fwdTab, gauge, alive, began, closing, lpc, lcur, rxq, sockErr, icmpFly, rpc, rcur,
-                    tpc, texp, tcur, now, tickAt, down, seen, toPeer, toClient, got, done, nextGen, lastAct, everDown, expiredOnce >>
+                    tpc, texp, tcur, now, tickAt, down, seen, toPeer, toClient, got, done, nextGen, lastAct, everDown, expiredOnce, met, stalled >>
 
 \* the peer of flow f answers to the port it has learnt from a datagram of the flow's current socket
-PeerReplies(f, id) ==
+PeerReplies(f, id, n) ==
     /\ alive /\ ops < MaxOps
     /\ K(f) \in DOMAIN fwdTab /\ K(f) \in seen /\ Dst[f] \notin down
     /\ Len(rxq[K(f)]) < MaxQ
-    /\ rxq' = [rxq EXCEPT ![K(f)] = Append(@, id)]
+    /\ rxq' = [rxq EXCEPT ![K(f)] = Append(@, [id |-> id, len |-> n])]
     /\ ops' = ops + 1 /\ nextId' = IF Hist THEN nextId + 1 ELSE nextId
     /\ UNCHANGED << pipeTab, fwdTab, gauge, alive, began, closing, inq, lpc, lcur, sockErr, icmpFly, rpc, rcur,
-                    tpc, texp, tcur, now, tickAt, down, seen, toPeer, toClient, got, done, nextGen, lastAct, everDown, expiredOnce >>
+                    tpc, texp, tcur, now, tickAt, down, seen, toPeer, toClient, got, done, nextGen, lastAct, everDown, expiredOnce, met, stalled >>
 
 \* the server at address a received datagram id (sent to a while it was up); recorded executions only
-PeerGot(a, f, id) ==
-    /\ \E i \in 1..Len(toPeer) : toPeer[i].id = id /\ toPeer[i].f = f /\ toPeer[i].to = a /\ ~toPeer[i].lost
+PeerGot(a, f, id, n) ==
+    /\ \E i \in 1..Len(toPeer) : toPeer[i].id = id /\ toPeer[i].f = f /\ toPeer[i].to = a /\ ~toPeer[i].lost /\ toPeer[i].len = n
     /\ [a |-> a, id |-> id] \notin got
     /\ got' = got \cup {[a |-> a, id |-> id]}
     /\ UNCHANGED << pipeTab, fwdTab, gauge, alive, began, closing, inq, lpc, lcur, rxq, sockErr, icmpFly, rpc, rcur,
-                    tpc, texp, tcur, now, tickAt, down, seen, toPeer, toClient, done, ops, nextId, nextGen, lastAct, everDown, expiredOnce >>
+                    tpc, texp, tcur, now, tickAt, down, seen, toPeer, toClient, done, ops, nextId, nextGen, lastAct, everDown, expiredOnce, met, stalled >>
 
 ServerDown(a) ==
     /\ alive /\ ops < MaxOps /\ a \notin down /\ a \in {Dst[f] : f \in Flows \ Unconn}
     /\ down' = down \cup {a} /\ everDown' = everDown \cup {a}
     /\ ops' = ops + 1
     /\ UNCHANGED << pipeTab, fwdTab, gauge, alive, began, closing, inq, lpc, lcur, rxq, sockErr, icmpFly, rpc, rcur,
-                    tpc, texp, tcur, now, tickAt, seen, toPeer, toClient, got, done, nextId, nextGen, lastAct, expiredOnce >>
+                    tpc, texp, tcur, now, tickAt, seen, toPeer, toClient, got, done, nextId, nextGen, lastAct, expiredOnce, met, stalled >>
 
 ServerUp(a) ==
     /\ alive /\ ops < MaxOps /\ a \in down
     /\ down' = down \ {a}
     /\ ops' = ops + 1
     /\ UNCHANGED << pipeTab, fwdTab, gauge, alive, began, closing, inq, lpc, lcur, rxq, sockErr, icmpFly, rpc, rcur,
-                    tpc, texp, tcur, now, tickAt, seen, toPeer, toClient, got, done, nextId, nextGen, lastAct, everDown, expiredOnce >>
+                    tpc, texp, tcur, now, tickAt, seen, toPeer, toClient, got, done, nextId, nextGen, lastAct, everDown, expiredOnce, met, stalled >>
 
 \* the ICMP port-unreachable reaches the socket (any time after the send)
 IcmpLands(k) ==
@@ -413,33 +440,48 @@ IcmpLands(k) ==
     /\ lpc \in {"idle", "write"} /\ rpc = "idle" /\ tpc = "idle"
     /\ icmpFly' = icmpFly \ {k} /\ sockErr' = sockErr \cup {k}
     /\ UNCHANGED << pipeTab, fwdTab, gauge, alive, began, closing, inq, lpc, lcur, rxq, rpc, rcur,
-                    tpc, texp, tcur, now, tickAt, down, seen, toPeer, toClient, got, done, ops, nextId, nextGen, lastAct, everDown, expiredOnce >>
+                    tpc, texp, tcur, now, tickAt, down, seen, toPeer, toClient, got, done, ops, nextId, nextGen, lastAct, everDown, expiredOnce, met, stalled >>
+
+\* the client stops / resumes taking datagrams (flow control of the downstream stream)
+ClientStalls ==
+    /\ alive /\ ops < MaxOps /\ ~stalled
+    /\ stalled' = TRUE /\ ops' = ops + 1
+    /\ UNCHANGED << pipeTab, fwdTab, gauge, alive, began, closing, inq, lpc, lcur, rxq, sockErr, icmpFly, rpc, rcur,
+                    tpc, texp, tcur, now, tickAt, down, seen, toPeer, toClient, got, done, nextId, nextGen, lastAct, everDown, expiredOnce, met >>
+ClientResumes ==
+    /\ alive /\ ops < MaxOps /\ stalled
+    /\ stalled' = FALSE /\ ops' = ops + 1
+    /\ UNCHANGED << pipeTab, fwdTab, gauge, alive, began, closing, inq, lpc, lcur, rxq, sockErr, icmpFly, rpc, rcur,
+                    tpc, texp, tcur, now, tickAt, down, seen, toPeer, toClient, got, done, nextId, nextGen, lastAct, everDown, expiredOnce, met >>
 
 ClientCloses ==
     /\ alive /\ ~closing
     /\ closing' = TRUE
     /\ UNCHANGED << pipeTab, fwdTab, gauge, alive, began, inq, lpc, lcur, rxq, sockErr, icmpFly, rpc, rcur,
-                    tpc, texp, tcur, now, tickAt, down, seen, toPeer, toClient, got, done, ops, nextId, nextGen, lastAct, everDown, expiredOnce >>
+                    tpc, texp, tcur, now, tickAt, down, seen, toPeer, toClient, got, done, ops, nextId, nextGen, lastAct, everDown, expiredOnce, met, stalled >>
 
 --------------------------------------------------------------------------
 
 Left  == Lookup \/ InsertPipeEntry \/ SockOpenOk \/ SockOpenErr \/ NewConnOk \/ NewConnErr
-         \/ RegisterOutgoing \/ SinkWriteOk \/ SinkWriteErr
-Right == (\E k \in AllKeys : ReadReply(k) \/ SockErrRead(k)) \/ RegisterIncoming \/ DnsDone
+         \/ RegisterOutgoing \/ SinkWriteOk \/ SinkWriteErr \/ MetricOut
+Right == (\E k \in AllKeys : ReadReply(k) \/ SockErrRead(k)) \/ MetricIn \/ RegisterIncoming \/ DnsDone
          \/ (\E k \in AllKeys : DnsConnClosed(Rev(k))) \/ ReadClose
 Timer == Tick \/ (\E k \in AllKeys : Expire(k) \/ ExpireConnClosed(Rev(k))) \/ TickEnd
 Impl  == Begin \/ Left \/ Right \/ Timer \/ Return
 
 \* the harness injects only between polls (when every chain is idle and the left pipe is not parked)
 EnvQuiet == Quiet /\ began
-EnvDgram == EnvQuiet /\ \E f \in Flows : ClientDgram(f, nextId)
-EnvReply == EnvQuiet /\ \E f \in Flows : PeerReplies(f, nextId)
+\* in the models the payload of a datagram of flow f has f bytes (distinct per flow)
+EnvDgram == EnvQuiet /\ \E f \in Flows : ClientDgram(f, nextId, f)
+EnvReply == EnvQuiet /\ \E f \in Flows : PeerReplies(f, nextId, f)
+EnvStall == EnvQuiet /\ inq = << >> /\ ClientStalls
+EnvResume == EnvQuiet /\ inq = << >> /\ ClientResumes
 EnvDown  == EnvQuiet /\ \E a \in Addr : ServerDown(a)
 EnvUp    == EnvQuiet /\ \E a \in Addr : ServerUp(a)
 EnvIcmp  == \E k \in AllKeys : IcmpLands(k)
 EnvClose == EnvQuiet /\ inq = << >> /\ ClientCloses
 EnvAdv   == Adv(1)
-Env == EnvDgram \/ EnvReply \/ EnvDown \/ EnvUp \/ EnvIcmp \/ EnvClose \/ EnvAdv
+Env == EnvDgram \/ EnvReply \/ EnvDown \/ EnvUp \/ EnvIcmp \/ EnvClose \/ EnvAdv \/ EnvStall \/ EnvResume
 
 Next == Impl \/ Env
 Spec == Init /\ [][Next]_vars
@@ -451,8 +493,9 @@ TypeOK ==
     /\ DOMAIN pipeTab \subseteq AllKeys /\ DOMAIN fwdTab \subseteq AllKeys
     /\ \A k \in DOMAIN pipeTab : pipeTab[k].la \in 0..now /\ pipeTab[k].pend \in -1..(MaxOps + 1)
     /\ gauge \in 0..Cardinality(Flows)
-    /\ lpc \in {"idle", "ins", "open", "conn", "connerr", "reg", "write"}
-    /\ rpc \in {"idle", "regin", "dns1", "dns2", "close"}
+    /\ lpc \in {"idle", "ins", "open", "conn", "connerr", "reg", "write", "metric"}
+    /\ rpc \in {"idle", "metricin", "regin", "dns1", "dns2", "close"}
+    /\ stalled \in BOOLEAN /\ DOMAIN met = Dirs
     /\ tpc \in {"idle", "tick", "closed"}
     /\ sockErr \subseteq DOMAIN fwdTab /\ icmpFly \subseteq DOMAIN fwdTab /\ seen \subseteq DOMAIN fwdTab
 
@@ -507,6 +550,17 @@ PeersGetTheirOwn ==
 \* everything sent to a peer that was up has been received by it
 AllGot == \A i \in 1..Len(toPeer) : toPeer[i].lost \/ [a |-> toPeer[i].to, id |-> toPeer[i].id] \in got
 
-Inv == TypeOK /\ Routing /\ Isolation /\ TablesAgree /\ TablesNearlyAgree /\ GaugeExact /\ BoundedSockets
+\* C16 on the UDP pipe: the byte counters equal the payload bytes actually relayed in each
+\* direction - every datagram the forwarder sent on a flow socket, every datagram the
+\* downstream sink accepted, and nothing else (a Dropped datagram is not counted); while a
+\* counter update is pending the difference is exactly the datagram in hand
+RECURSIVE SumAll(_), SumSent(_)
+SumAll(h)  == IF h = << >> THEN 0 ELSE Head(h).len + SumAll(Tail(h))
+SumSent(h) == IF h = << >> THEN 0 ELSE (IF Head(h).sent THEN Head(h).len ELSE 0) + SumSent(Tail(h))
+MetricsEqualDelivered ==
+    /\ met["out"] + (IF lpc = "metric" THEN lcur.len ELSE 0) = SumAll(toPeer)
+    /\ met["in"] + (IF rpc = "metricin" THEN rcur.len ELSE 0) = SumSent(toClient)
+
+Inv == MetricsEqualDelivered /\ TypeOK /\ Routing /\ Isolation /\ TablesAgree /\ TablesNearlyAgree /\ GaugeExact /\ BoundedSockets
        /\ ExpiryReleases /\ NoEarlyExpiry /\ DnsReleased /\ FlowErrorsAreLocal
 =============================================================================
